@@ -407,6 +407,9 @@ class C16(core.Check):
         recs = [dict(gen(core.rng_for(seed, PROP, i), tier), i=i) for i in range(self.runs[tier])]
         # one fixed session that reproduces the committed known finding (symmetry-blocked root, HF / RPA)
         recs[0] = dict(KNOWN_SKIPPED_ROOT_SESSION, i=0)
+        # record 1: pinned session of DESIGN section 6 item 47 (water, orbital window with nov = norb = 6, carried amplitudes,
+        # make_best_guess off): found by the seed-4242 thorough soak, repaired by adb73ae
+        recs[1] = {"batch": ["h2o", "h2o"], "method": "MNDO", "exc": "cis", "n_states": 8, "tol": 1e-06, "best_guess": False, "rotate": 675678892, "seed": 250247097275, "window": [0.75, 1.0], "i": 1, "ops": [{"op": "SOLVE", "start": "fresh"}, {"op": "MOVE", "sigma": 0.05}, {"op": "SOLVE", "start": "reuse", "sigma": 0.1}]}
         return recs
 
     def shrink_candidates(self, rec):
